@@ -277,13 +277,13 @@ theorem C04_joinAll (acl : Acl) (L : Log) (logs : List (OMap × OMap)) :
 
 /-- **C04 (address check).** `Sync`'s pre-check lets through no head that passes the access check
 and is wrongly addressed: such a head aborts the `Sync` with `hashMismatch`. -/
-theorem C04_hash (acl : Acl) (heads : List Entry) (hok : syncPrecheck acl heads = .ok) :
+theorem C04_hash (acl : Acl) (heads : List Entry) (hok : syncPrecheck0 acl heads = .ok) :
     ∀ h ∈ heads, acl.canAppend h = true → h.hashOk = true := by
   induction heads with
   | nil => intro h hh; simp at hh
   | cons a as ih =>
     intro h hh hc
-    unfold syncPrecheck at hok
+    unfold syncPrecheck0 at hok
     cases hca : acl.canAppend a
     · rw [hca] at hok
       simp only [Bool.not_false, if_true] at hok
@@ -302,11 +302,11 @@ theorem C04_hash (acl : Acl) (heads : List Entry) (hok : syncPrecheck acl heads 
 
 /-- the pre-check's only outcomes: `ok` or `hashMismatch` -/
 theorem syncPrecheck_cases (acl : Acl) (heads : List Entry) :
-    syncPrecheck acl heads = .ok ∨ syncPrecheck acl heads = .hashMismatch := by
+    syncPrecheck0 acl heads = .ok ∨ syncPrecheck0 acl heads = .hashMismatch := by
   induction heads with
   | nil => exact Or.inl rfl
   | cons a as ih =>
-    unfold syncPrecheck
+    unfold syncPrecheck0
     split
     · exact ih
     · split
